@@ -44,6 +44,7 @@ TIERS = {
         patch_emit=dict(MaxStmts=5, StmtKinds=ALL_STMT),
         walk_check=[dict(MaxNodes=3, NodeKinds=ALL_NODE, Ordered=False)],
         walk_emit=[dict(MaxNodes=4, NodeKinds=SOME_NODE, Ordered=True)],
+        hist=dict(MaxBase=2, MaxEdits=1, NodeKinds={"pkg_t", "pkg_u", "law_d", "law_u"}),
         runs=[("probe", 0), ("plain", 1)]),
     "thorough": dict(
         patch_check=[dict(MaxStmts=6, StmtKinds=ALL_STMT), dict(MaxStmts=7, StmtKinds=SOME_STMT)],
@@ -52,6 +53,7 @@ TIERS = {
         walk_emit=[dict(MaxNodes=4, NodeKinds=ALL_NODE, Ordered=True),
                    dict(MaxNodes=5, NodeKinds={"pkg_t", "priv_t", "law_d", "law_u"}, Ordered=True),
                    dict(MaxNodes=6, NodeKinds={"pkg_t", "law_d", "law_u"}, Ordered=True)],
+        hist=dict(MaxBase=2, MaxEdits=2, NodeKinds={"pkg_t", "pkg_u", "law_d", "law_u"}),
         runs=[("probe", 0), ("plain", 1), ("preuse", 2), ("plain", 12345)]),
 }
 P_INV = ["PTypeOK", "OwnDocstring", "FlagTrueAtEnd", "DisabledExactlyAroundDocumentedMembers", "MembersExecuted", "LogAdmitted",
@@ -230,10 +232,7 @@ def parse_toctree(text: str) -> list[str]:
     return out
 
 
-def replay_tree(case):
-    """One abstract source tree through the real generate_laws_docs.  Returns (case, [problem, ...])."""
-    from sympy.core.parameters import global_parameters
-    from symplyphysics.docs.build import generate_laws_docs
+def _workdir(case) -> Path:
     base = _WORK.get(os.getpid())
     if base is None:
         base = Path(case["scratch"]) / f"w{os.getpid()}"
@@ -241,42 +240,49 @@ def replay_tree(case):
         _WORK[os.getpid()] = base
     work = base / "case"
     shutil.rmtree(work, ignore_errors=True)
-    names = _names(case)
-    tree = case["t"]
-    root = work / "pkg"
-    root.mkdir(parents=True)
-    (work / "out").mkdir()
-    excluded = []
+    (work / "pkg").mkdir(parents=True)
+    return work
 
-    def write_init(path: Path, kind: str, name: str, i: int):
-        if kind.endswith("_t"):
-            title = f"Package {name}"
-            path.write_text(DOC_INIT.format(name=name, ul=("=" if i % 2 == 0 else "-") * len(title)))
-        else:
-            path.write_text("" if i % 2 == 0 else '"""\nNo title here.\n"""\n')
 
-    write_init(root / "__init__.py", case["r"], "pkg", 0)
-    for i, node in enumerate(tree, start=1):
-        rel = _relpath(case, names, i)
-        path = root.joinpath(*rel)
-        k = node["k"]
-        if k.startswith("law"):
-            title = f"Law {names[i]}"
-            if k == "law_d":
-                path.write_text(LAW_DOC.format(name=names[i], ul="=" * len(title)))
-            else:
-                path.write_text("x = 1\n" if i % 2 == 0 else '"""\nJust a comment, no title.\n"""\nx = 1\n')
+def _write_init(path: Path, kind: str, name: str, i: int, rev: int = 0) -> None:
+    if kind.endswith("_t"):
+        title = f"Package {name}"
+        text = DOC_INIT.format(name=name, ul=("=" if i % 2 == 0 else "-") * len(title))
+        path.write_text(text if rev == 0 else text.replace("Description of", f"Revision {rev} of the description of"))
+    else:
+        path.write_text("" if i % 2 == 0 else '"""\nNo title here.\n"""\n')
+
+
+def _write_node(case, names, root: Path, i: int, excluded: list, rev: int = 0) -> Path:
+    """Materialise node i of the abstract tree (rev > 0: a modified version of its source)."""
+    node = case["t"][i - 1]
+    rel = _relpath(case, names, i)
+    path = root.joinpath(*rel)
+    k = node["k"]
+    if k.startswith("law"):
+        title = f"Law {names[i]}"
+        if k == "law_d":
+            text = LAW_DOC.format(name=names[i], ul="=" * len(title))
+            path.write_text(text if rev == 0 else text.replace("The symbol of", f"Revision {rev} of the symbol of"))
         else:
-            path.mkdir()
-            write_init(path / "__init__.py", k, names[i], i)
-            if k.startswith("excl"):
-                excluded.append("/".join(rel))
+            path.write_text("x = 1\n" if i % 2 == 0 else '"""\nJust a comment, no title.\n"""\nx = 1\n')
+        return path
+    path.mkdir(exist_ok=True)
+    _write_init(path / "__init__.py", k, names[i], i, rev)
+    if k.startswith("excl"):
+        excluded.append("/".join(rel))
+    return path / "__init__.py"
+
+
+def _generate(work: Path, outname: str, excluded) -> list:
+    from sympy.core.parameters import global_parameters
+    from symplyphysics.docs.build import generate_laws_docs
     problems = []
     cwd = os.getcwd()
     os.chdir(work)
     global_parameters.evaluate = True
     try:
-        generate_laws_docs("pkg", "out", excluded, True)
+        generate_laws_docs("pkg", outname, excluded, True)
     except Exception as e:  # pylint: disable=broad-except
         problems.append(f"generation raised {type(e).__name__}: {e}")
     finally:
@@ -284,18 +290,23 @@ def replay_tree(case):
     if not global_parameters.evaluate:
         problems.append("evaluation is off after generation")
         global_parameters.evaluate = True
-    if problems:
-        return case, problems
-    produced = sorted(os.listdir(work / "out"))
+    return problems
+
+
+def _verify(case, names, out: Path, revs=None) -> list:
+    """Compare an output directory with the model's page set / toctrees for the tree of `case`."""
+    tree = case["t"]
+    problems = []
+    produced = sorted(os.listdir(out))
     expected = {}
     for i in case["pages"]:
         expected[_stem(case, names, i) + ".rst"] = i
     if sorted(expected) != produced:
         problems.append(f"pages produced {produced}, model expects {sorted(expected)}")
-        return case, problems
+        return problems
     for entry in case["toc"]:
         d = entry["d"]
-        text = (work / "out" / (_stem(case, names, d) + ".rst")).read_text()
+        text = (out / (_stem(case, names, d) + ".rst")).read_text()
         listed = [e.lstrip(".") for e in parse_toctree(text)]      # the root package's entries carry a leading dot
         must_pk = [_stem(case, names, i) for i in entry["pk"]]
         may_pk = {_stem(case, names, i) for i in entry["opt"]}
@@ -310,17 +321,113 @@ def replay_tree(case):
             problems.append(f"page of {_stem(case, names, d) or '<root>'} lists an entry twice: {listed}")
     for i in case["pages"]:
         if i != 0 and tree[i - 1]["k"] == "law_d":
-            text = (work / "out" / (_stem(case, names, i) + ".rst")).read_text()
+            text = (out / (_stem(case, names, i) + ".rst")).read_text()
             if ":code:`x + x`" not in text or ":laws:" in text:
                 problems.append(f"law page {_stem(case, names, i)} does not show the formula as written")
             own = {b[1]: b[2] for b in page_blocks(text) if b[0] == "data"}
             nm = names[i]
-            if sorted(own) != ["law", "x"] or f"The symbol of {nm}." not in own["x"] or f"The law of {nm}." not in own["law"] \
+            rv = revs[i] if revs else 0
+            desc = f"The symbol of {nm}." if rv == 0 else f"Revision {rv} of the symbol of {nm}."
+            if sorted(own) != ["law", "x"] or desc not in own["x"] or f"The law of {nm}." not in own["law"] \
                     or "Text after a" in text:
-                problems.append(f"law page {_stem(case, names, i)}: members {sorted(own)} are not listed with their own descriptions")
+                problems.append(f"law page {_stem(case, names, i)}: members {sorted(own)} are not listed with their own "
+                                f"(current) descriptions")
             if ".. py:function:: calculate_pair(" not in text or ".. py:function:: calculate_optional(" not in text:
                 problems.append(f"law page {_stem(case, names, i)} does not list the module's documented functions")
+    return problems
+
+
+def replay_tree(case):
+    """One abstract source tree through the real generate_laws_docs.  Returns (case, [problem, ...])."""
+    work = _workdir(case)
+    names = _names(case)
+    root = work / "pkg"
+    (work / "out").mkdir()
+    excluded = []
+    _write_init(root / "__init__.py", case["r"], "pkg", 0)
+    for i in range(1, len(case["t"]) + 1):
+        _write_node(case, names, root, i, excluded)
+    problems = _generate(work, "out", excluded)
+    if problems:
+        return case, problems
+    return case, _verify(case, names, work / "out")
+
+
+def replay_history(case):
+    """One history of spec/DocGenHist.tla (generate; edit the sources; generate again into the SAME output
+    directory; ...) through the real generate_laws_docs.  The final output must be what the model expects for the
+    final sources and byte-identical to a generation of the final sources into an empty directory."""
+    work = _workdir(case)
+    names = _names(case)
+    root = work / "pkg"
+    (work / "out").mkdir()
+    excluded = []
+    _write_init(root / "__init__.py", case["r"], "pkg", 0)
+    have = 0
+    revs = {i: 0 for i in range(0, len(case["t"]) + 1)}
+    clock = 2_000_000_000            # edited sources get modification times later than anything written before
+    for ev in case["h"]:
+        if ev["ev"] == "gen":
+            while have < ev["n"]:     # nodes present at the first generation
+                have += 1
+                _write_node(case, names, root, have, excluded)
+            problems = _generate(work, "out", excluded)
+            if problems:
+                return case, problems
+        elif ev["ev"] == "add":
+            have = max(have, ev["n"])
+            path = _write_node(case, names, root, ev["n"], excluded)
+            clock += 100
+            os.utime(path, (clock, clock))
+        else:
+            i = ev["n"]
+            revs[i] += 1
+            if i == 0:
+                path = root / "__init__.py"
+                _write_init(path, case["r"], "pkg", 0, revs[0])
+            else:
+                path = _write_node(case, names, root, i, excluded, revs[i])
+            clock += 100
+            os.utime(path, (clock, clock))
+    problems = _verify(case, names, work / "out", revs)
+    (work / "fresh").mkdir()
+    problems += _generate(work, "fresh", excluded)
+    fresh = {f.name: f.read_bytes() for f in (work / "fresh").iterdir()}
+    kept = {f.name: f.read_bytes() for f in (work / "out").iterdir()}
+    if sorted(fresh) != sorted(kept):
+        problems.append(f"output directory after the history holds {sorted(kept)}, a fresh generation gives {sorted(fresh)}")
+    stale = sorted(k for k in fresh if k in kept and kept[k] != fresh[k])
+    if stale:
+        problems.append(f"pages {stale} differ from a fresh generation of the current sources (stale after the history)")
     return case, problems
+
+
+def hist_key(case) -> str:
+    return tree_key(case) + " | " + " ".join(f"{e['ev']}{e['n']}" for e in case["h"])
+
+
+def history_layer(run: Run, sc: Path, tier: dict, pool) -> None:
+    cfgd = tier["hist"]
+    consts = dict(NOP, MaxNodes=cfgd["MaxBase"] + cfgd["MaxEdits"], **cfgd)
+    cfg = write_cfg(sc / "hist.cfg", init="HInit", next_="HNext", constants=consts,
+                    invariants=["IncrementalEqualsFresh", "NoPageLost", "HTypeOK", "HEmit"])
+    res = run_tlc("DocGenHist", cfg, sc, workers=1, coverage=True, allow_violation=False)
+    run.add_tlc(res, f"history layer (persistent output directory): IncrementalEqualsFresh, NoPageLost over all histories with "
+                     f"up to {cfgd['MaxBase']} nodes at the first generation and {cfgd['MaxEdits']} edits (add a node / "
+                     f"modify a source), generating whenever the sources changed")
+    cases = [c for c in res.printed if "h" in c]
+    run.coverage["generation_histories_emitted"] = len(cases)
+    for c in cases:
+        c["scratch"] = str(sc)
+    for case, problems in pmap(pool, replay_history, cases, chunk=50):
+        run.traces += 1
+        key = hist_key(case)
+        run.count(key)
+        if len(case["h"]) >= 4:
+            run.sample({"layer": "history", "history": key, "pages": case["pages"]}, limit=7)
+        if problems:
+            c2 = {k: v for k, v in case.items() if k != "scratch"}
+            run.violation(f"history: {key}", "; ".join(problems)[:500], {"layer": "history", "case": c2})
 
 
 def tree_key(case) -> str:
@@ -744,6 +851,7 @@ def main() -> int:
             with make_pool() as pool:
                 patch_layer(run, sc, t, pool, tier)
                 walk_layer(run, sc, t, pool)
+                history_layer(run, sc, t, pool)
                 real_tree(run, sc, procs, pool)
         finally:
             for *_x, p in procs:
@@ -773,6 +881,10 @@ def replay_file(path: str) -> int:
         with Scratch() as sc:
             c = dict(case["case"], scratch=str(sc))
             _, problems = replay_tree(c)
+    elif case.get("layer") == "history":
+        with Scratch() as sc:
+            c = dict(case["case"], scratch=str(sc))
+            _, problems = replay_history(c)
     else:
         # a finding on the real tree: run the real-tree phase again and look for the same key
         run = Run(PID, "replay")
